@@ -60,6 +60,39 @@ func c19TimingInventory(repo string) ([]string, error) {
 			})
 		}
 	}
+	// thread-creation order in connectPeer: the joiner's accept goroutine is started AFTER the
+	// sync with the leader (connectPeerToLeader sets need[]); Proto/Mesh.v creates the
+	// accept thread at that step
+	if f, err := parser.ParseFile(fset, filepath.Join(repo, "p2p", "network.go"), nil, 0); err == nil {
+		for _, d := range f.Decls {
+			fd, ok := d.(*ast.FuncDecl)
+			if !ok || fd.Name.Name != "connectPeer" || fd.Body == nil {
+				continue
+			}
+			var posGo, posSync token.Pos
+			ast.Inspect(fd.Body, func(nd ast.Node) bool {
+				switch nd := nd.(type) {
+				case *ast.GoStmt:
+					if sel, ok := nd.Call.Fun.(*ast.SelectorExpr); ok && sel.Sel.Name == "accept" && posGo == 0 {
+						posGo = nd.Pos()
+					}
+				case *ast.CallExpr:
+					if sel, ok := nd.Fun.(*ast.SelectorExpr); ok && sel.Sel.Name == "connectPeerToLeader" && posSync == 0 {
+						posSync = nd.Pos()
+					}
+				}
+				return true
+			})
+			switch {
+			case posGo == 0 || posSync == 0:
+				inv = append(inv, "network.go:connectPeer:order:go-accept-or-connectPeerToLeader-not-found")
+			case posSync < posGo:
+				inv = append(inv, "network.go:connectPeer:order:connectPeerToLeader-before-go-accept")
+			default:
+				inv = append(inv, "network.go:connectPeer:order:go-accept-before-connectPeerToLeader")
+			}
+		}
+	}
 	sort.Strings(inv)
 	var out []string
 	for i, s := range inv {
@@ -71,7 +104,9 @@ func c19TimingInventory(repo string) ([]string, error) {
 }
 
 // the timers on the mesh-formation path that the model was written against
-var c19ExpectedTiming = []string{}
+var c19ExpectedTiming = []string{
+	"network.go:connectPeer:order:connectPeerToLeader-before-go-accept",
+}
 
 func c19CheckTiming(c *Ctx) {
 	repo := os.Getenv("VERIF_REPO")
@@ -90,6 +125,12 @@ func c19CheckTiming(c *Ctx) {
 	for _, s := range inv {
 		c.Eval("timing/"+s, false)
 		if !exp[s] {
+			if containsStr(s, ":order:") {
+				c.Fail("c19:thread-creation-order:unmodelled:"+s,
+					"connectPeer starts the accept goroutine at another point than Proto/Mesh.v (which creates the joiner's accept thread after the sync with the leader has set need[]): "+s,
+					map[string]interface{}{"repo": repo, "inventory": inv, "expected": c19ExpectedTiming})
+				continue
+			}
 			c.Fail("c19:timing-inventory:unmodelled:"+s,
 				"p2p mesh formation uses a timer / deadline that the model of Proto/Mesh.v does not have (time is not modelled: C19_complete covers every delay between two steps, so a bound on a delay is behaviour outside the model): "+s,
 				map[string]interface{}{"repo": repo, "inventory": inv, "expected": c19ExpectedTiming})
